@@ -341,10 +341,15 @@ pub fn run(ctx: &Ctx) -> ! {
     inits.push(Init { groups: vec![(2, true), (1, true)] });
     inits.push(Init { groups: vec![(4, true), (2, true), (5, true)] });
 
+    // thorough: the larger alphabet (third value) is used from the empty container and from the first few initial
+    // states; the full list of repeated-kind initial states runs with the 16-operation alphabet (the product of
+    // both would be ~5e8 transitions)
+    let small_ops: Vec<Op> = ops.iter().copied().filter(|o| o.value <= 2).collect();
     let mut global: HashMap<u64, usize> = HashMap::new();
     for (i, init) in inits.iter().enumerate() {
         let mut st = Stats::new();
-        bfs(init, &ops, ctx.threads, &mut global, &mut st, i);
+        let ops: &Vec<Op> = if i <= 8 || inits.len() - i <= 3 { &ops } else { &small_ops };
+        bfs(init, ops, ctx.threads, &mut global, &mut st, i);
         let name = format!("bfs from {:?}", init.groups);
         rep.section(&name, st);
     }
